@@ -24,10 +24,13 @@ func init() {
 				"rate-limited, access-blocked and failed requests never reach it). R3: FileSystem.Write opens the log append-only, " +
 				"encodes the entry into the pooled buffer (never into the file), writes the file exactly once from that buffer, and " +
 				"does not use the buffer after returning it to the pool. R4: the switches that map filtering results to log codes " +
-				"name every result type or end in a panicking default.",
+				"name every result type or end in a panicking default. R6: the conversions from the backend and from the file cache " +
+				"copy QueryLogEnabled and IPLogEnabled from the fields of the same name, and newRequestInfo re-initialises every " +
+				"field of the pooled request information on every path, so a request never inherits the previous request's profile.",
 			NotCovered: "JSON well-formedness of arbitrary field contents (encoding/json trusted); atomicity of O_APPEND writes in the kernel.",
 			Rules: map[string]string{"C15-R1": "recordQueryInfo gates and entry provenance", "C15-R2": "sole callers of log/billing sinks; record only after the write",
-				"C15-R3": "single append write from the pooled buffer", "C15-R4": "result switches exhaustive", "C15-R5": "every field of the entry is written"},
+				"C15-R3": "single append write from the pooled buffer", "C15-R4": "result switches exhaustive", "C15-R5": "every field of the entry is written",
+				"C15-R6": "the logging opt-in flags are copied name-to-name by the backend and file-cache conversions; the recycled request-information object (which carries the profile attribution) is fully re-initialised"},
 		}})
 }
 
@@ -36,6 +39,13 @@ func runC15(c *an.Ctx) {
 	c.Floor("C15-R2", 3)
 	c.Floor("C15-R3", 4)
 	c.Floor("C15-R4", 3)
+	c.Floor("C15-R6", 8)
+	// ---- R6: the opt-in flags survive conversions and object recycling
+	c14CodecNames(c, "C15-R6", func(dst, src string) bool {
+		n := normName(dst) + " " + normName(src)
+		return strings.Contains(n, "querylogenabled") || strings.Contains(n, "iplogenabled")
+	}, 4)
+	sharedPoolInit(c, "C15-R6", "dnssvc/internal/ratelimitmw.(*Middleware).newRequestInfo")
 
 	// ---- R1
 	decide(c, "C15-R1", "dnssvc/internal/mainmw.(*Middleware).recordQueryInfo", an.DecideCfg{
